@@ -37,6 +37,12 @@ type c10Case struct {
 	// handler does after answering; added after the independently seeded change C10-6: the sender
 	// was installed behind the early return of that option)
 	NoUDP bool `json:"server_disable_udp,omitempty"`
+	// kind "reuse": the SAME *client.Config is used for two handshakes; between them the server's
+	// receive limit / ignore flag change to SRx2 / Ignore2 (a reconnect to a reconfigured server, or
+	// a library user connecting to two servers with one Config). Added after the independently
+	// seeded change C10-7: the client wrote the negotiated value back into the caller's Config.
+	SRx2    uint64 `json:"srx2,omitempty"`
+	Ignore2 bool   `json:"ignore2,omitempty"`
 }
 
 var (
@@ -196,6 +202,36 @@ func c10Run(c *c10Case) string {
 				if !pc.Closed() {
 					e.Fail("client socket left open after Close")
 				}
+			}
+		case "reuse":
+			cfg := &client.Config{
+				ServerAddr: r.pc.LocalAddr(), Auth: "good",
+				BandwidthConfig:  client.BandwidthConfig{MaxTx: c.CTx, MaxRx: c.CRx},
+				CongestionConfig: client.CongestionConfig{Type: typ, BBRProfile: prof},
+			}
+			for round, want := range []uint64{c10RefClient(c.SRx, c.Ignore, c.CTx), c10RefClient(c.SRx2, c.Ignore2, c.CTx)} {
+				f := &c10Factory{}
+				cfg.ConnFactory = f
+				if round == 1 {
+					r.cfg.BandwidthConfig.MaxRx = c.SRx2
+					r.cfg.IgnoreClientBandwidth = c.Ignore2
+				}
+				cl, info, err := client.NewClient(cfg)
+				if err != nil {
+					e.Fail("NewClient (handshake %d with the same Config): %v", round+1, err)
+					return
+				}
+				conns := vquic.GetNet(e).Conns
+				cconn := conns[len(conns)-1]
+				if cconn.IsServer() {
+					cconn = cconn.Peer()
+				}
+				c10Check(e, fmt.Sprintf("client, handshake %d with the same Config", round+1), c10Inspect(cconn), want, c.CC)
+				if info.Tx != want {
+					e.Fail("handshake %d with the same Config: client HandshakeInfo.Tx=%d, its own limit %d and the server's receive limit give %d", round+1, info.Tx, c.CTx, want)
+				}
+				_ = cl.Close()
+				e.WaitIdle()
 			}
 		case "server-header":
 			// raw client: the real server parses a peer-chosen Hysteria-CC-RX string
@@ -366,6 +402,25 @@ func c10Enumerate(sh *evidence.Shard) {
 								if !run(p1, c10Case{Kind: "grid", CTx: ctx, CRx: crx, STx: stx, SRx: srx, Ignore: ig, CC: cc, NoUDP: noUDP}) {
 									return
 								}
+							}
+						}
+					}
+				}
+			}
+		}
+	}
+	p3 := sh.Part("config-reused-for-two-handshakes", "enum")
+	reuseRx := []uint64{0, 100000, 1000000000}
+	reuseTx := []uint64{0, 123456, 2000000000, math.MaxUint64}
+	p3.Alphabet = map[string]any{"client MaxTx": reuseTx, "server MaxRx at the first / second handshake": reuseRx, "ignore_client_bandwidth at the first / second handshake": []bool{false, true}, "congestion": []string{"bbr:standard", "reno"}}
+	for _, ctx := range reuseTx {
+		for _, s1 := range reuseRx {
+			for _, i1 := range []bool{false, true} {
+				for _, s2 := range reuseRx {
+					for _, i2 := range []bool{false, true} {
+						for _, cc := range []string{"bbr:standard", "reno"} {
+							if !run(p3, c10Case{Kind: "reuse", CTx: ctx, CRx: 500000, SRx: s1, Ignore: i1, SRx2: s2, Ignore2: i2, CC: cc}) {
+								return
 							}
 						}
 					}
